@@ -22,10 +22,19 @@ def do_copy(obj, how):
     return pickle.loads(pickle.dumps(obj, protocol=int(how[6:])))
 
 
+PRIMS = (str, int, float, bool, type(None), np.integer, np.floating, np.bool_)
+
+
 def val(v):
     if isinstance(v, float) and v != v:
         return "float:nan"
-    return "%s:%r" % (type(v).__name__, v)
+    if isinstance(v, PRIMS):
+        return "%s:%r" % (type(v).__name__, v)
+    if isinstance(v, (list, tuple)) and all(isinstance(x, PRIMS) for x in v):
+        return "%s:%r" % (type(v).__name__, v)
+    if isinstance(v, dict) and all(isinstance(k, PRIMS) and isinstance(x, PRIMS) for k, x in v.items()):
+        return "dict:%r" % sorted(v.items(), key=repr)
+    return "object:" + type(v).__name__          # (no repr(): it may contain an address)
 
 
 def arr_digest(a):
